@@ -36,7 +36,9 @@ def kinds():
            K(views=[("S", "ref"), ("H", "optref")], idv=True),
            K(views=[("W", "mut"), ("H", "optmut")]),
            K(views=[("H", "ref"), ("S", "ref"), ("W", "optref")]),
-           K(views=[("S", "mut"), ("W", "mut")], filt=["not", ["has", "H"]])]
+           K(views=[("S", "mut"), ("W", "mut")], filt=["not", ["has", "H"]]),
+           K(views=[("W", "ref")], idv=True),
+           K(views=[], idv=True)]
     ks += [K(res=[("RA", "mut")]),                               # D: resources
            K(views=[("W", "mut")], res=[("RA", "ref")]),
            K(res=[("RB", "mut"), ("RA", "ref")]),
@@ -126,6 +128,14 @@ def descriptor(i, k):
     for r, vk in k["res"]: d["res"][r] = vk
     return d
 
+def write_if_changed(path, text):
+    try:
+        if open(path).read() == text:
+            return
+    except OSError:
+        pass
+    open(path, "w").write(text)
+
 def gen_kinds(path):
     ks = kinds()
     w = ["// @generated by tools/gen_sched.py - do not edit\n#![allow(unused_variables, unused_mut)]\n",
@@ -138,7 +148,7 @@ def gen_kinds(path):
     for i, k in enumerate(ks):
         w.append("        \"%s\" => r#\"%s\"#,\n" % (name(i), json.dumps(descriptor(i, k))))
     w.append("        _ => panic!(\"harness: unknown kind {kind}\"),\n    };\n    serde_json::from_str(s).unwrap()\n}\n")
-    open(path, "w").write("".join(w))
+    write_if_changed(path, "".join(w))
     return ks
 
 def item(i, k):
@@ -186,6 +196,12 @@ def family(tier, ks):
     rb_w = find([("W", "mut")], [("RB", "mut")])
     rb_r = find([("S", "ref")], [("RB", "ref")])
     rb_w2 = find([("H", "optref")], [("RA", "ref"), ("RB", "mut")])
+    # identifier views conflict with nothing: they must not cut a stage
+    id_kinds = [i for i, k in enumerate(ks) if k["id"] and not k["par"]]
+    ro = [i for i, k in enumerate(ks) if not k["id"] and not k["par"] and not k["res"] and not k["entry"]
+          and k["views"] and all(vk in ("ref", "optref") for _, vk in k["views"])]
+    id_pairs = [(ro[0], id_kinds[0]), (ro[1], id_kinds[-1]), (id_kinds[0], id_kinds[1]), (id_kinds[-1], ro[2])]
+    pn = id_pairs + [p for p in pn if p not in id_pairs]
     must_pairs = [(ra_w, ra_r), (ra_r, ra_w), (rb_w, rb_r), (rb_r, rb_w), (ra_w, ra_w), (rb_w, rb_w2), (rb_w2, ra_w)]
     pc = must_pairs + [p for p in pc if p not in must_pairs]
     if tier == "quick":
@@ -214,8 +230,9 @@ def main(tier, srcdir, nbins=None):
         bins[i].append((nm, tasks))
         load[i] += cost(tasks)
     tag = tier[0]
+    wanted = {"sched_%s%02d.rs" % (tag, i) for i in range(nbins)}
     for f in os.listdir(outdir):
-        if f.startswith("sched_%s" % tag) and f.endswith(".rs"):
+        if f.startswith("sched_%s" % tag) and f.endswith(".rs") and f not in wanted:
             os.remove(os.path.join(outdir, f))
     for i, b in enumerate(bins):
         body = []
@@ -237,7 +254,7 @@ fn main() {
     out.flush().unwrap();
 }
 ''' % (tier, i, "\n".join(body))
-        open(os.path.join(outdir, "sched_%s%02d.rs" % (tag, i)), "w").write(src)
+        write_if_changed(os.path.join(outdir, "sched_%s%02d.rs" % (tag, i)), src)
     print("%s: %d kinds, %d cases, est. max bin %.0fs" % (tier, len(ks), len(cases), max(load)))
 
 if __name__ == "__main__":
